@@ -261,6 +261,9 @@ func run(sc *scenario, scratch string, seed int64) ([]map[string]any, error) {
 		case "timeout":
 			code = -2
 			time.Sleep(1400 * time.Millisecond) // the pusher's client gives up after 1.5 s; the endpoint counts the request as over just before
+		case "code203", "code205", "code206", "code207", "code208", "code226", "code300", "code304", "code400", "code599":
+			// one explicit final status (the boundary of the success set)
+			fmt.Sscanf(class, "code%d", &code)
 		case "failtrunc": // a failing status whose body is cut short (declared longer than what is sent)
 			code = 500
 			trunc = true
